@@ -56,6 +56,19 @@ def fold(node, env):
         return [fold(e, env) for e in node.elts]
     if isinstance(node, ast.Tuple):
         return tuple(fold(e, env) for e in node.elts)
+    if isinstance(node, ast.Subscript):
+        v = fold(node.value, env)
+        if isinstance(v, (list, tuple)):
+            if isinstance(node.slice, ast.Slice):
+                lo = fold(node.slice.lower, env) if node.slice.lower else None
+                hi = fold(node.slice.upper, env) if node.slice.upper else None
+                if any(x is not None and not (isinstance(x, F) and x.denominator == 1) for x in (lo, hi)) or node.slice.step is not None:
+                    raise NotConstant(unparse(node))
+                return v[(int(lo) if lo is not None else None):(int(hi) if hi is not None else None)]
+            i = fold(node.slice, env)
+            if isinstance(i, F) and i.denominator == 1 and -len(v) <= int(i) < len(v):
+                return v[int(i)]
+        raise NotConstant(unparse(node))
     if isinstance(node, ast.Call):
         fn = unparse(node.func)
         if fn in ("np.array", "np.asarray", "numpy.array") and node.args:
@@ -138,6 +151,26 @@ def partial_eval_dispatch(fn, attr_text, value, want):
                     env[s.targets[0].id] = fold(s.value, env)
                 except NotConstant as e:
                     env[s.targets[0].id] = ("UNK", unparse(s.value), str(e))
+            elif isinstance(s, ast.Assign) and len(s.targets) == 1 and isinstance(s.targets[0], ast.Tuple) and all(isinstance(t, ast.Name) for t in s.targets[0].elts):
+                names = [t.id for t in s.targets[0].elts]
+                vals = s.value.elts if isinstance(s.value, ast.Tuple) and len(s.value.elts) == len(names) else None
+                if vals is None:
+                    try:
+                        whole = fold(s.value, env)
+                        vals_f = list(whole) if isinstance(whole, (list, tuple)) and len(whole) == len(names) else None
+                    except NotConstant:
+                        vals_f = None
+                    for i_, nme in enumerate(names):
+                        env[nme] = vals_f[i_] if vals_f is not None else ("UNK", unparse(s.value), "tuple")
+                else:
+                    new = []
+                    for v_ in vals:       # right-hand side is evaluated before any target is bound
+                        try:
+                            new.append(fold(v_, env))
+                        except NotConstant as e:
+                            new.append(("UNK", unparse(v_), str(e)))
+                    for nme, v_ in zip(names, new):
+                        env[nme] = v_
             elif isinstance(s, ast.Assert):
                 if isinstance(s.test, ast.Constant) and s.test.value is False:
                     env["__assert_false__"] = True
